@@ -61,10 +61,9 @@ infixl:65 " +++ " => gapp
 /-- tokens copied from the input -/
 def U (ts : Toks) : GToks := ts.map fun s => { s, p := .user }
 def u (s : String) : GTok := { s, p := .user }
-/-- member names, each with its anchor: `fn name`, `type Name`, `.name`, `::name`, `Name =` -/
+/-- member names, each with its anchor: `fn name`, `type Name`, `::name`, `Name =` (no `.name`: the expansion calls nothing in method syntax) -/
 def fnM (s : String) : GTok := { s, p := .mem, pre := "fn" }
 def typeM (s : String) : GTok := { s, p := .mem, pre := "type" }
-def dotM (s : String) : GTok := { s, p := .mem, pre := "." }
 def pathM (s : String) : GTok := { s, p := .mem, pre := "::" }
 def bindM (s : String) : GTok := { s, p := .mem, post := "=" }
 /-- the strings a generated token prints as -/
